@@ -46,7 +46,13 @@ func c07SeqJob(tier string) *SeqJob {
 					s      tally.Scope
 					closed bool
 					ident  string
+					// handles kept by the application from the moment the scope was obtained (a handle that outlives
+					// its scope must stay harmless: what it records may be dropped, never delivered elsewhere)
+					c tally.Counter
+					h tally.Histogram
 				}
+				hwant := map[string]int64{}     // identity -> histogram samples recorded on live objects
+				hoptional := map[string]int64{} // identity -> histogram samples recorded on objects after their Close
 				handle := map[string]*obj{}     // spelling -> last object obtained through it
 				registered := map[string]*obj{} // identity -> object the model expects to be registered
 				byScope := map[tally.Scope]*obj{}
@@ -55,6 +61,9 @@ func c07SeqJob(tier string) *SeqJob {
 				childWant := int64(0)
 				next := int64(1)
 				var closedLog []string
+				// lifecycle events in order (object created, closed, dropped by a pass): what an implementation recycles
+				// depends on their order, which the reference state alone does not show
+				var life []string
 				usedSpell := map[string]bool{}
 				for _, op := range hist {
 					var what, lbl string
@@ -66,6 +75,7 @@ func c07SeqJob(tier string) *SeqJob {
 						for id, ob := range registered {
 							if ob.closed {
 								delete(registered, id)
+								life = append(life, "P")
 							}
 						}
 						continue
@@ -96,7 +106,9 @@ func c07SeqJob(tier string) *SeqJob {
 							}
 							if ob == nil {
 								ob = &obj{s: s, ident: sp.ident}
+								ob.c, ob.h = s.Counter("c"), s.Histogram("h", tally.ValueBuckets{1, 2})
 								byScope[s] = ob
+								life = append(life, "N"+lbl)
 							}
 							registered[sp.ident] = ob
 						}
@@ -106,11 +118,14 @@ func c07SeqJob(tier string) *SeqJob {
 						if ob == nil {
 							continue
 						}
-						ob.s.Counter("c").Inc(next)
+						ob.c.Inc(next)
+						ob.h.RecordValue(1.5)
 						if !ob.closed {
 							want[ob.ident] += next
+							hwant[ob.ident]++
 						} else {
 							optional[ob.ident] += next // recorded after Close: not guaranteed either way
+							hoptional[ob.ident]++
 						}
 						next *= 2
 					case "close":
@@ -119,6 +134,9 @@ func c07SeqJob(tier string) *SeqJob {
 							continue
 						}
 						closeScope(ob.s)
+						if !ob.closed {
+							life = append(life, "X"+lbl)
+						}
 						ob.closed = true
 						closedLog = append(closedLog, lbl)
 					case "same":
@@ -165,7 +183,7 @@ func c07SeqJob(tier string) *SeqJob {
 					ks = append(ks, "used"+l)
 				}
 				sort.Strings(ks)
-				key = fmt.Sprint(cached, shards, ks, want, childWant > 0)
+				key = fmt.Sprint(cached, shards, ks, want, childWant > 0, life)
 				tally.VerifReportOnce(root)
 				tally.VerifReportOnce(root)
 				got := sumCounters(rec.Log, 0, len(rec.Log))
@@ -184,6 +202,30 @@ func c07SeqJob(tier string) *SeqJob {
 						return "recorded-before-close-not-delivered-exactly-once", fmt.Sprintf("%v: identity %s: %d recorded on live scopes (plus %d recorded after a Close), %d delivered", histLabels(alphabet, hist), id, w, o, g)
 					}
 				}
+				// histogram samples: per identity at least what was recorded on live objects, at most that plus what
+				// was recorded on objects of that identity after their Close - and all of it in the bucket (1,2]
+				hgot := map[string]int64{}
+				for _, e := range rec.Log {
+					if e.Kind == "hvalue" && e.I != 0 {
+						if e.HiF != 2 {
+							return "histogram-sample-in-wrong-bucket", fmt.Sprintf("%v: %s", histLabels(alphabet, hist), e.String())
+						}
+						hgot[e.ID()] += e.I
+					}
+				}
+				hids := map[string]bool{}
+				for id := range hwant {
+					hids["h"+id] = true
+				}
+				for id := range hgot {
+					hids[id] = true
+				}
+				for hid := range hids {
+					id := hid[1:]
+					if g, w, o := hgot[hid], hwant[id], hoptional[id]; g < w || g > w+o {
+						return "recorded-before-close-not-delivered-exactly-once", fmt.Sprintf("%v: identity %s: %d histogram samples recorded on live scopes (plus %d through handles of closed ones), %d delivered", histLabels(alphabet, hist), id, w, o, g)
+					}
+				}
 				var gc int64
 				for id, g := range got {
 					if len(id) > 2 && id[:2] == "cc" {
@@ -199,7 +241,20 @@ func c07SeqJob(tier string) *SeqJob {
 		}
 	}
 	depth := tierInt(tier, 6, 7)
-	j := &SeqJob{Property: "C07", Name: "cycle-histories-two-spellings-one-identity", Shards: len(alphabet)}
+	// (run under the controlled scheduler's default schedule: sync.Pool is then a deterministic stack that is emptied
+	// between executions, so that a history involving a recycled object replays exactly)
+	plainExec := exec
+	exec = func(cached bool, shards uint) func(hist []int) (string, string, string, int) {
+		f := plainExec(cached, shards)
+		return func(hist []int) (cl, det, key string, steps int) {
+			ccl, cdet := controlledCase(0, func() { cl, det, key, steps = f(hist) })
+			if ccl != "" {
+				return ccl, fmt.Sprintf("%v: %s", histLabels(alphabet, hist), cdet), key, steps
+			}
+			return
+		}
+	}
+	j := &SeqJob{Property: "C07", Name: "cycle-histories-two-spellings-one-identity", Shards: len(alphabet), Controlled: true}
 	j.Run = func(ctx *SeqCtx) {
 		bfs(ctx, alphabet, depth, exec(true, 1))
 		if ctx.viol == nil && !ctx.st.TimedOut {
